@@ -41,8 +41,11 @@ class MetricActionContext(ActionContext):
         for metric in metrics:
             labels, value = self._process_metric(metric)
             for processor in self.trigger_context.config.metric_processors:
-                getattr(processor, self._convert_type(metric.type))(metric.name, labels, metric.namespace or "deep",
-                                                                    metric.help, metric.unit, value)
+                try:
+                    getattr(processor, self._convert_type(metric.type))(metric.name, labels, metric.namespace or "deep",
+                                                                        metric.help, metric.unit, value)
+                except Exception:
+                    deep.logging.exception("Failed to process metric %s with processor %s", metric.name, processor)
 
     def __has_metric_processor(self):
         return self.trigger_context.config.has_metric_processor
